@@ -100,7 +100,7 @@ def main(argv=None):
             p = subprocess.run(
                 [PY, '-m', 'pytest', '-q', '-p', 'no:cacheprovider',
                  '--timeout=900', '--continue-on-collection-errors',
-                 f'--junitxml={d}/tests.junit.xml'], cwd=src, env=env,
+                 f'--junitxml={src}/tests.junit.xml'], cwd=src, env=env,
                 capture_output=True, text=True, timeout=5000)
             last = [ln for ln in p.stdout.splitlines() if ln.strip()][-1]
             print(last)
